@@ -344,7 +344,8 @@ def run(c):
     for l in out.splitlines():
         if l.startswith("scalar "):
             scal.add(l.split(" ", 1)[1])
-    always = [j for j in jobs if j[0] == "vs_full.schema.yaml" and j[1] in scal and j[2] in ("scalar:", "null")]
+    # … and zero: the value a numeric option (page size, code length, limits) must never be taken at face value for
+    always = [j for j in jobs if j[0] == "vs_full.schema.yaml" and j[1] in scal and j[2] in ("scalar:", "null", "scalar:0")]
     rest = [j for j in jobs if j not in always]
     jobs = always + rest[:n_mut] + pair_jobs[:(n_mut // 2)]
     hist = c1.short_history("vs_full")
